@@ -139,3 +139,18 @@ package verifspec
 //@   oncall finalizeRemovals: assert forall(k, 0, len(file.Decls), typeis(old(file.Decls)[k], "*go/ast.FuncDecl") && has(overrides, funcKeyOf(ref(old(file.Decls)[k]))) && (overrides[funcKeyOf(ref(old(file.Decls)[k]))].keepOriginal || overrides[funcKeyOf(ref(old(file.Decls)[k]))].overrideSignature != nil) ==> file.Decls[k] == old(file.Decls)[k])
 //@   ensures forall(k, 0, len(old(file.Decls)), typeis(old(file.Decls)[k], "*go/ast.FuncDecl") && has(overrides, funcKeyOf(ref(old(file.Decls)[k]))) ==> finalized && pruned)
 //@   ensures forall(k, 0, len(old(file.Decls)), typeis(old(file.Decls)[k], "*go/ast.FuncDecl") && !has(overrides, funcKeyOf(ref(old(file.Decls)[k]))) && recvKeyLen(ref(old(file.Decls)[k])) > 0 && has(overrides, recvKeyOf(ref(old(file.Decls)[k]))) && overrides[recvKeyOf(ref(old(file.Decls)[k]))].purgeMethods ==> finalized && pruned)
+
+// ---- astutil.Squeeze (generic; used to compact declaration, specification, import and name lists after removals):
+// the result is a prefix of the same array, contains no nil entry, and every non-nil entry of the input is in it.
+//@ func compiler/astutil.Squeeze
+//@ property C12
+//@   assigns elems(s)
+//@   loop 1 invariant 0 <= dest && dest <= src && src <= count && count == len(s) && len(s) == len(old(s))
+//@   loop 1 invariant forall(k, 0, dest, s[k] != nil)
+//@   loop 1 invariant forall(k, dest, src, s[k] == nil)
+//@   loop 1 invariant forall(k, src, len(s), s[k] == old(s)[k])
+//@   loop 1 invariant forall(k, 0, src, old(s)[k] != nil ==> exists(j, 0, dest, s[j] == old(s)[k]))
+//@   loop 1 decreases count - src
+//@   ensures len(result) <= len(s) && prefixof(result, s)
+//@   ensures forall(k, 0, len(result), result[k] != nil)
+//@   ensures forall(k, 0, len(old(s)), old(s)[k] != nil ==> exists(j, 0, len(result), result[j] == old(s)[k]))
